@@ -83,8 +83,10 @@ def lc_uses_prefix(e, i, k, strict):
 
 
 def kbinds(pat, k):
-    """names of an opaque binding pattern (an element of ListComp.targets / TupleBinding.elts)"""
-    return ghost_pred('binds_pat', pat, k)
+    """names of an opaque binding pattern (an element of ListComp.targets / TupleBinding.elts).  Such elements are
+    keys of the sort `TupleBinding`, used for ANY pattern (NamedId / UnderscoreId / TupleBinding): spec.c15.binds gives
+    them the abstract name set `binds_tuple(pat, .)`, natively names_of(pat) of the real node"""
+    return binds(pat, k)
 
 
 def lc_fold_def(e, strict):
